@@ -79,11 +79,16 @@ func RawReadBad(r io.Reader) (uint32, error) {
 
 func RawReadGood(r io.Reader) (byte, error) {
 	var b [1]byte
-	n, err := r.Read(b[:])
-	if n == 1 {
-		return b[0], nil
+	for {
+		n, err := r.Read(b[:])
+		if n == 1 {
+			return b[0], nil
+		}
+		if err != nil {
+			return 0, err
+		}
+		// (0, nil): nothing happened, ask again
 	}
-	return 0, err
 }
 
 // ---- R-DISCARD
